@@ -387,6 +387,15 @@ func (w *c07World) run(r *kit.Result, id string, ps c07ParentSpec, q c07Req, ren
 		}
 	}
 	asks := c07Asks(c)
+	// evidence for the namespace dimension: the caller's policy NAMES would grant sudo if they were (wrongly)
+	// resolved in the request namespace, while the caller's own policies do not
+	namesake := false
+	if c.CrossNS && !c.Sudo && parent.NS == "" {
+		if _, s := c07RefCaps(q.NS, parent.allPolicies(), q.NS+q.path()); s {
+			namesake = true
+			r.Count("cross_namespace_caller_whose_policy_namesakes_grant_sudo", 1)
+		}
+	}
 
 	resp, rerr := v.Do(vReq{Op: logical.UpdateOperation, Path: q.path(), Token: parent.ID, NS: q.NS, Data: c07ReqData(&q)})
 	created := vOK(resp, rerr) && resp != nil && resp.Auth != nil && resp.Auth.ClientToken != ""
@@ -407,6 +416,9 @@ func (w *c07World) run(r *kit.Result, id string, ps c07ParentSpec, q c07Req, ren
 
 	if !created {
 		r.Count("refused", 1)
+		if namesake {
+			r.Count("cross_namespace_namesake_caller_refused", 1)
+		}
 		if !c.Update {
 			r.Count("refused_reference_says_no_update_capability", 1)
 		}
@@ -734,6 +746,10 @@ func c07RandCase(rng *kit.Rand, w *c07World, n int) (c07ParentSpec, c07Req) {
 		if rng.Chance(1, 4) {
 			access = append(access, "tc") // access in the wrong namespace only
 		}
+		if rng.Chance(1, 3) {
+			// a policy of the caller's namespace whose namesake in the child namespace grants sudo there
+			access = append(access, kit.Pick(rng, []string{"sudo-create", "sudo-orphan", "sudo-roles", "sudo-glob"}))
+		}
 	}
 	content := c07Sub(rng, c07Content, 1, 3)
 	ps.Policies = append(access, content...)
@@ -833,6 +849,7 @@ func c07Shard(prefix string) int {
 const c07Rule0 = "a case = one parent token made for the case (kind root/expiring root/service/batch/use-limited/login/login with entity; namespace; access policy set with or without sudo on the called path; content policies; default or not) x one request to auth/token/create | create-orphan | create/<role> (role written for the case) in the same or the child namespace; every returned token is judged on the response auth block, on lookup of the stored token, on lookup under a caller-chosen id and after a renewal attempt against the doc-derived invariants (policy bound incl. role lists/globs/sudo/cross-namespace, root, non-assignable, default rule, orphan, period, id, type, role CIDRs/uses, lifetime vs explicit and mount max, entity, namespace); distinct non-trivial = distinct (capability, endpoint, role shape, cross-namespace, set of unentitled asks, flags, outcome)"
 
 func c07Requires(r *kit.Result, scale int64) {
+	r.Require("cross_namespace_caller_whose_policy_namesakes_grant_sudo", 10*scale)
 	r.Require("created", 40*scale)
 	r.Require("refused", 40*scale)
 	r.Require("lookup_views", 40*scale)
@@ -874,7 +891,7 @@ func TestVerif_C07_Random(t *testing.T) {
 func TestVerif_C07_Lattice(t *testing.T) {
 	seed := kit.Seed(7)
 	shard := c07Shard("lat")
-	r := kit.NewResult(t, "c07-lattice", seed, "full product capability{none, sudo on the called path, sudo only elsewhere, root} x namespaces{root, ns1, root->ns1} x endpoint{create, create-orphan, role without lists, role allowed, role allowed+glob, role disallowed, role disallowed glob, role allowed+disallowed, role allowing root, role with token_no_default_policy} x requested policies{none, subset, superset, all of the parent plus one, default, root, root in upper case, response-wrapping (two spellings), glob-matched, role-disallowed} x no_default_policy x parent has default; capability x namespaces x endpoint{create, create-orphan, plain role, orphan role, period role, explicit-max role, default-batch role with explicit max} (with a renewal attempt) x flag{no_parent, period, id, batch type, explicit max, huge ttl, combinations}; batch and use-limited parents x capability x namespaces x endpoints; "+c07Rule0)
+	r := kit.NewResult(t, "c07-lattice", seed, "full product capability{none, sudo on the called path, sudo only elsewhere, (cross-namespace) sudo only through a same-named policy of the other namespace, root} x namespaces{root, ns1, root->ns1} x endpoint{create, create-orphan, role without lists, role allowed, role allowed+glob, role disallowed, role disallowed glob, role allowed+disallowed, role allowing root, role with token_no_default_policy} x requested policies{none, subset, superset, all of the parent plus one, default, root, root in upper case, response-wrapping (two spellings), glob-matched, role-disallowed} x no_default_policy x parent has default; capability x namespaces x endpoint{create, create-orphan, plain role, orphan role, period role, explicit-max role, default-batch role with explicit max} (with a renewal attempt) x flag{no_parent, period, id, batch type, explicit max, huge ttl, combinations}; batch and use-limited parents x capability x namespaces x endpoints; "+c07Rule0)
 	defer r.Write(t)
 	w := c07Boot(t)
 	rng := kit.NewRand(seed, uint64(shard)+900)
@@ -898,6 +915,11 @@ func TestVerif_C07_Lattice(t *testing.T) {
 			if rng.Chance(1, 3) {
 				a = []string{"tc", "sudo-glob"} // shadowed by the more specific non-sudo paths of tc
 			}
+		case "namesake":
+			// cross-namespace only: access to the child namespace's endpoint without sudo, plus a policy of the
+			// caller's own namespace whose NAMESAKE in the child namespace grants sudo on the called path.
+			// Policy names are per namespace, so this caller has no sudo there.
+			return []string{"x-tc", kit.Pick(rng, []string{target, target, "sudo-glob"})}
 		}
 		if cross {
 			for i := range a {
@@ -976,15 +998,18 @@ func TestVerif_C07_Lattice(t *testing.T) {
 		}
 		w.run(r, id, ps, q, renew)
 	}
-	for _, capability := range []string{"none", "sudo", "elsewhere", "root"} {
+	for _, capability := range []string{"none", "sudo", "elsewhere", "namesake", "root"} {
 		for _, m := range modes {
 			if capability == "root" && m.pns != "" {
+				continue
+			}
+			if capability == "namesake" && m.pns == m.qns {
 				continue
 			}
 			renew = false
 			for _, ep := range endpoints {
 				for _, rk := range reqKeys {
-					if capability == "elsewhere" && !(rk == "none" || rk == "superset" || rk == "root" || rk == "parent-plus" || rk == "role-disallowed") {
+					if (capability == "elsewhere" || capability == "namesake") && !(rk == "none" || rk == "superset" || rk == "root" || rk == "parent-plus" || rk == "role-disallowed") {
 						continue // behaves like "none"; keep the informative points only
 					}
 					for _, nd := range []bool{false, true} {
